@@ -195,6 +195,60 @@ fn promise_case<P: G>(cfg: Cfg, j: usize, tier: Tier, top: bool) -> Box<dyn Case
                 }
             }
         }
+        // a promise that does not fit the bit length is refused even when the proof is algebraically valid for it: the
+        // reference prover (no range checks) proves value = 2^n + 3 under promise 2^n (difference 3 is in range)
+        if cfg.n < 64 && cfg.n >= 2 && cfg.rounds() >= 1 {
+            let two_n = 1u64 << cfg.n;
+            let mut w = base.clone();
+            w.values[j] = two_n + 3;
+            w.promises[j] = Some(two_n);
+            let params = params_cached::<P>(&cfg);
+            let commitments = commitments_for(params.pc_gens(), &w).unwrap();
+            if let Ok(st) = P::statement(params.clone(), commitments, w.promises.clone(), None) {
+                let rst = ref_statement(&st);
+                let nonces = refbp::Nonces {
+                    alpha: (0..cfg.d).map(|k| wide_scalar("pa", k as u64, 0)).collect(),
+                    dl: (0..cfg.rounds()).map(|r| (0..cfg.d).map(|k| wide_scalar("pl", r as u64, k as u64)).collect()).collect(),
+                    dr: (0..cfg.rounds()).map(|r| (0..cfg.d).map(|k| wide_scalar("pr", r as u64, k as u64)).collect()).collect(),
+                    delta: (0..cfg.d).map(|k| wide_scalar("pd", k as u64, 0)).collect(),
+                    eta: (0..cfg.d).map(|k| wide_scalar("pe", k as u64, 0)).collect(),
+                    r: wide_scalar("pr1", 0, 0),
+                    s: wide_scalar("ps1", 0, 0),
+                };
+                if let Some(digits) = refbp::honest_digits(cfg.n, &w.values, &w.promises) {
+                    let mut t = CTX_A.transcript();
+                    let out = refbp::ref_prove(&mut t, &rst, &digits, &w.blindings, &nonces);
+                    if let Ok(proof) = P::from_bytes(&refbp::ref_encode(&out.proof)) {
+                        // alone, and as the first / last member of a batch with an honest companion
+                        let comp_cfg = Cfg::new(cfg.n, 1, 1, cfg.d);
+                        let cw = Wit::default_for(&comp_cfg);
+                        let comp = build_cached::<P>(&comp_cfg, &cw).expect("valid");
+                        let comp_proof = lib_prove(&comp, &CTX_A, &mut HRng::chacha(44));
+                        let mut layouts: Vec<(String, Vec<tari_bulletproofs_plus::range_statement::RangeStatement<P>>, Vec<tari_bulletproofs_plus::range_proof::RangeProof<P>>)> =
+                            vec![("alone".into(), vec![st.clone()], vec![P::proof_clone(&proof)])];
+                        if let Ok(cp) = &comp_proof {
+                            layouts.push(("first-in-batch".into(), vec![st.clone(), comp.statement.clone()], vec![P::proof_clone(&proof), P::proof_clone(cp)]));
+                            layouts.push(("last-in-batch".into(), vec![comp.statement.clone(), st.clone()], vec![P::proof_clone(cp), P::proof_clone(&proof)]));
+                        }
+                        for (name, sts, proofs) in layouts {
+                            for mode in MODES {
+                                let mut ts: Vec<merlin::Transcript> = sts.iter().map(|_| CTX_A.transcript()).collect();
+                                let obs = verify_observed(&sts, &proofs, &mut ts, mode);
+                                res.executions += 1;
+                                res.validated += 1;
+                                *res.outcome_counter(&format!("oversized-promise:{}", obs.class())) += 1;
+                                if !obs.is_err() {
+                                    res.violate(
+                                        format!("oversized-promise/{}/{}", name, mode_name(mode)),
+                                        format!("promise 2^{} (does not fit in {} bits) was not refused ({}, {}): {}", cfg.n, cfg.n, name, mode_name(mode), obs.describe()),
+                                    );
+                                }
+                            }
+                        }
+                    }
+                }
+            }
+        }
         // prover attempts around the boundary
         for (p, expect_ok) in [(vj, true), (vj.saturating_add(1), vj == u64::MAX)] {
             let mut wit = base.clone();
@@ -238,6 +292,5 @@ pub fn run(rep: &mut Report) {
     rep.explore("C07", cases);
     rep.expect_sub_outcome("substitution:Ok");
     rep.expect_sub_outcome("substitution:Err:VerificationFailed");
-    rep.expect_sub_outcome("substitution:Err:InvalidLength");
     rep.expect_sub_outcome("prover:refused");
 }
